@@ -47,6 +47,16 @@ def main():
             print("%-10s %-10s runs=%d  two-processes=%s  batch-split=%s  O0==O2=%s" %
                   (binname, cls, n, "same" if ok_proc else "DIFFERENT", "same" if ok_split else "DIFFERENT", "same" if ok_opt else "DIFFERENT"), flush=True)
             bad += (not ok_proc) + (not ok_split) + (not ok_opt)
+        # the instrumented flavours: same batch, two processes (a run may depend on its position in the batch there,
+        # see DESIGN 10.1, so the batch split is not compared)
+        for fl in ("fn", "mem"):
+            bd = B.build(fl)
+            for cls in ("forkjoin", "mutex", "dtor", "initfini"):
+                a = sigs(os.path.join(bd, "mvh"), cls, 9002, 0, max(100, runs // 3), tmp, "x" + fl)
+                b = sigs(os.path.join(bd, "mvh"), cls, 9002, 0, max(100, runs // 3), tmp, "y" + fl)
+                ok = a is not None and a == b
+                print("%-10s %-10s flavour=%-3s two-processes=%s" % ("mvh", cls, fl, "same" if ok else "DIFFERENT"), flush=True)
+                bad += (not ok)
     print("selftest: %d mismatch(es)" % bad)
     return 1 if bad else 0
 
